@@ -201,7 +201,8 @@ def one_run(ctx, corrs, stock_only=False, dense=False, rs=None, k=None):
     rs = ctx.rnd.random() if rs is None else rs
     rnd = random.Random(rs)
     S = B.gen_market(rnd, ndays=rnd.randrange(10, 26), with_future=False if stock_only else None,
-                     opts={"p_div": 0.8, "p_split": 0.5, "p_delist": 0.7 if (k is not None and k % 4 == 1) else 0.35, "p_special_div": 0.35} if dense else None)
+                     opts={"p_div": 0.8, "p_split": 0.5, "p_delist": 0.7 if (k is not None and k % 4 in (1, 3)) else 0.35, "p_special_div": 0.35,
+                           "p_div_over_delist": 0.8 if (k is not None and k % 4 == 3) else 0} if dense else None)
     if not S["stocks"]:
         return
     if dense and k is not None and k % 4 == 1 and len(S["stocks"]) >= 2:
